@@ -100,6 +100,9 @@ func c11Exec(op string) string {
 			} else if err == nil {
 				note = "remove of a missing path reported success"
 			}
+		} else if err == nil {
+			// a parent segment is missing or is not a map: the path does not exist
+			note = "remove through a missing or non-map parent reported success"
 		}
 	case "rename":
 		err = mv.RenameKey(path, newName)
@@ -125,6 +128,8 @@ func c11Exec(op string) string {
 					note = "rename of a missing key reported success"
 				}
 			}
+		} else if !ok && err == nil {
+			note = "rename through a missing or non-map parent reported success"
 		}
 	}
 	if err != nil && !deepEq(before, m) && note == "" {
